@@ -20,6 +20,9 @@ pub struct C12Checker {
     file_event_pending: bool,
     before_outputs: Option<Outputs>,
     initialised: bool,
+    /// without a user configuration directory MathCAT re-reads prefs.yaml on every call: values that were not set
+    /// through set_preference (NavMode written by navigation commands) may fall back to the file value at any call
+    no_user_dir: bool,
 }
 
 /// preferences whose value MathCAT derives from others (Language / DecimalSeparator) or rewrites itself (navigation)
@@ -52,8 +55,8 @@ pub fn normalise_language(value: &str) -> Option<String> {
 }
 
 impl C12Checker {
-    pub fn new(_t: &Trace, _s: usize) -> C12Checker {
-        C12Checker { names: vec![], model: BTreeMap::new(), bool_prefs: HashSet::new(), api_set: HashSet::new(), file_event_pending: false, before_outputs: None, initialised: false }
+    pub fn new(t: &Trace, _s: usize) -> C12Checker {
+        C12Checker { names: vec![], model: BTreeMap::new(), bool_prefs: HashSet::new(), api_set: HashSet::new(), file_event_pending: false, before_outputs: None, initialised: false, no_user_dir: !t.world.user_config_dir }
     }
 
     fn snapshot(&mut self, s: &mut Sess) -> BTreeMap<String, String> {
@@ -80,7 +83,7 @@ impl C12Checker {
             // preference files are (re)read; only their immediate read-back is promised (their effect on outputs is C10's)
             let seps_derived = matches!(n.as_str(), "DecimalSeparators" | "BlockSeparators");
             let derived_ok = allowed.contains(&n.as_str()) || seps_derived;
-            let file_ok = self.file_event_pending && !self.api_set.contains(n);
+            let file_ok = (self.file_event_pending || self.no_user_dir) && !self.api_set.contains(n);
             let derived_after_file = self.file_event_pending && DERIVED.contains(&n.as_str());
             if derived_ok || file_ok || derived_after_file {
                 continue;
